@@ -93,8 +93,31 @@ func c11Run(t c11Task) (res c11Result) {
 			}
 		}
 	case "fault":
-		r := vh.Faulty(b, t.M, t.Mode, t.K)
+		nb := c11Spec(t.PayLen+5, 3).Build()
+		nenc, _ := gen.Ser(&nb)
+		r := vh.Faulty(b, t.M, t.Mode, t.K, nb)
 		res.NSegs = len(r.Segs)
+		// the transfer after the failed one, on the same manager with a well-behaved peer
+		if r.NextRan && r.Hang == "" {
+			switch {
+			case r.NextErr != "":
+				res.Key, res.Desc = "C11/transfer-after-failed-transfer:send-error", fmt.Sprintf("after a transfer that failed (%s at segment %d) the next Send on the same session returned %q (first transfer: %d segments seen, send error %q; next transfer: %d segments seen, %d of %d octets)", t.Mode, t.K, r.NextErr, len(r.Segs), r.SendErr, len(r.Next), len(r.NextData), len(nenc))
+			case !bytes.Equal(r.NextData, nenc):
+				res.Key, res.Desc = "C11/transfer-after-failed-transfer:data", fmt.Sprintf("after a transfer that failed (%s at segment %d) the segments of the next transfer carry %d octets, the bundle has %d (or other content)", t.Mode, t.K, len(r.NextData), len(nenc))
+			case len(r.Next) == 0 || !r.Next[0].Start || !r.Next[len(r.Next)-1].End:
+				res.Key, res.Desc = "C11/transfer-after-failed-transfer:flags", "START/END flags of the transfer after a failed one"
+			case len(r.Segs) > 0 && r.Next[0].Tid == r.Segs[0].Tid:
+				res.Key, res.Desc = "C11/transfer-after-failed-transfer:id-reused", fmt.Sprintf("the transfer after a failed one reuses transfer id %d", r.Next[0].Tid)
+			}
+			for i, sg := range r.Next {
+				if res.Key == "" && ((i > 0 && sg.Start) || (i < len(r.Next)-1 && sg.End) || sg.Tid != r.Next[0].Tid) {
+					res.Key, res.Desc = "C11/transfer-after-failed-transfer:flags", fmt.Sprintf("segment %d of the transfer after a failed one: %+v", i, sg)
+				}
+			}
+			if res.Key != "" {
+				return
+			}
+		}
 		res.Out = fmt.Sprintf("%s@%d segs=%d err=%v", t.Mode, t.K, len(r.Segs), r.SendErr)
 		if r.Hang != "" {
 			res.Key, res.Desc = "C11/hang:"+t.Mode, r.Hang
